@@ -159,9 +159,8 @@ def stepLoop (cfg : Config) (s : St) : Option (Lbl × St) :=
     if s.rq.isEmpty && !s.inactive then some (tau 1, { s with inactive := true, marks := s.marks + 1, rs := true, lpc := 10 })
     else some (tau 1, { s with lpc := 9 })
   | 9 =>  -- head_.exchange(nullptr); schedule_local(make_reversed(..)); remoteQueueReadSubmitted_ = items.empty()
-    let got := s.rq.reverse
-    some (tau 1, { s with rq := [], inactive := false, lq := s.lq ++ got, rs := got.isEmpty,
-                          lpc := if got.isEmpty then 10 else 4 })
+    some (tau 1, { s with rq := [], inactive := false, lq := s.lq ++ s.rq.reverse, rs := s.rq.isEmpty,
+                          lpc := if s.rq.isEmpty then 10 else 4 })
   | 10 =>  -- epoll_wait(timeout = localQueue_.empty() ? -1 : 0)
     if s.efd > 0 then some (tau 1, { s with lpc := 11 })
     else if !s.lq.isEmpty then some (tau 1, { s with lpc := 4 })
